@@ -23,6 +23,8 @@ pub enum Slot {
 pub struct Node {
     pub ty: String,
     pub tuple: bool,
+    /// the type is declared `N<T>` (its first leaf has type T) and used as `N<i64>`
+    pub generic: bool,
     /// (member text, slot) in declaration order of the type; for tuple nodes the member text is the position
     pub slots: Vec<(String, Slot)>,
 }
@@ -79,7 +81,8 @@ fn gen_shape(t: &mut Tape, depth: usize, max_depth: usize, counter: &mut usize, 
         slots.push((format!("gd{}", id), Slot::Ghost(3000 + t.below(900) as i64)));
     }
     t.shuffle(&mut slots);
-    Node { ty: if root { "D".into() } else { format!("N{}", id) }, tuple, slots }
+    let generic = !root && slots.iter().any(|s| !matches!(s.1, Slot::Child(_))) && t.chance(1, 5);
+    Node { ty: if root { "D".into() } else { format!("N{}", id) }, tuple, generic, slots }
 }
 
 fn depth_of(n: &Node) -> usize {
@@ -266,10 +269,14 @@ fn gen_e(t: &mut Tape) -> ExprT {
 
 fn type_defs(n: &Node, out: &mut String) {
     let derives = "#[derive(Debug, Clone, PartialEq)]";
+    // a generic node: its first member that is not a nested struct has type T
+    let first_plain = n.slots.iter().position(|s| !matches!(s.1, Slot::Child(_)));
+    let ty_of = |i: usize, s: &Slot| -> String { if n.generic && Some(i) == first_plain { "T".to_string() } else { slot_ty(s) } };
+    let name = if n.generic { format!("{}<T>", n.ty) } else { n.ty.clone() };
     if n.tuple {
-        let _ = write!(out, "{} pub struct {}({});\n", derives, n.ty, n.slots.iter().map(|(_, s)| format!("pub {},", slot_ty(s))).collect::<Vec<_>>().join(" "));
+        let _ = write!(out, "{} pub struct {}({});\n", derives, name, n.slots.iter().enumerate().map(|(i, (_, s))| format!("pub {},", ty_of(i, s))).collect::<Vec<_>>().join(" "));
     } else {
-        let _ = write!(out, "{} pub struct {} {{ {} }}\n", derives, n.ty, n.slots.iter().map(|(m, s)| format!("pub {}: {},", m, slot_ty(s))).collect::<Vec<_>>().join(" "));
+        let _ = write!(out, "{} pub struct {} {{ {} }}\n", derives, name, n.slots.iter().enumerate().map(|(i, (m, s))| format!("pub {}: {},", m, ty_of(i, s))).collect::<Vec<_>>().join(" "));
     }
     for (_, s) in &n.slots {
         if let Slot::Child(c) = s {
@@ -280,7 +287,7 @@ fn type_defs(n: &Node, out: &mut String) {
 
 fn slot_ty(s: &Slot) -> String {
     match s {
-        Slot::Child(c) => c.ty.clone(),
+        Slot::Child(c) => if c.generic { format!("{}<i64>", c.ty) } else { c.ty.clone() },
         _ => "i64".into(),
     }
 }
@@ -326,7 +333,7 @@ fn nodes_of(n: &Node, path: &mut Vec<String>, out: &mut Vec<(String, String, boo
     for (m, s) in &n.slots {
         if let Slot::Child(ch) = s {
             path.push(m.clone());
-            out.push((dsl_path(path), ch.ty.clone(), ch.tuple));
+            out.push((dsl_path(path), if ch.generic { format!("{}<i64>", ch.ty) } else { ch.ty.clone() }, ch.tuple));
             nodes_of(ch, path, out);
             path.pop();
         }
